@@ -363,11 +363,15 @@ class Model(object):
                     for i, x in enumerate(bytes(o.data.val)):
                         out.append(("zone:%s" % key, o.vaddr + i, x))
                 else:
+                    # per byte, so that a re-structuring of the objects (merging / splitting) is not a change
+                    n = o.data.val.size // 8
                     try:
-                        d = (tuple(values(o.data.val)), o.data.endian)
+                        vs = values(o.data.val)
                     except (R.Inconclusive, AssertionError):
-                        d = None
-                    out.append(("zone:%s" % key, o.vaddr, d))
+                        vs = None
+                    for i in range(n):
+                        j = i if o.data.endian == 1 else n - 1 - i
+                        out.append(("zone:%s" % key, o.vaddr + i, None if vs is None else tuple((v >> (8 * j)) & 0xFF for v in vs)))
         return out
 
     def mm_op(self, k, op, a, b):
